@@ -7,6 +7,7 @@ import (
 	"github.com/IBM/TSS/mpc/ps"
 	math "github.com/IBM/mathlib"
 	"math/rand"
+	"os"
 	"runtime"
 	"sync"
 	"sync/atomic"
@@ -35,20 +36,53 @@ type c20Case struct {
 	Seed    int    // jitter seed
 	Early   bool   // a participant also sends early / duplicated / out-of-phase copies of its own traffic
 	Jitter  int    // max jitter in microseconds
-	Flood   bool   // a second key generation during which recorded protocol frames of participant 1 are replayed in a tight loop from the very start
+	// SlowSetup: the signer's SetShareData takes 20 ms longer (a slow disk / a large key), which widens the window in
+	// which a signing instance is being set up while traffic for its topic arrives
+	SlowSetup bool `json:",omitempty"`
+	Flood     bool // a second key generation during which recorded protocol frames of participant 1 are replayed in a tight loop from the very start
 }
 
 func genC20(t *rapid.T) c20Case {
 	return c20Case{
-		N:       rapid.IntRange(3, 4).Draw(t, "n"),
-		Silent:  rapid.Bool().Draw(t, "silent"),
-		Backend: rapid.SampledFrom([]string{"bls", "bls", "rec", "rec", "ps"}).Draw(t, "backend"),
-		Signs:   rapid.IntRange(0, 2).Draw(t, "signs"),
-		Seed:    rapid.IntRange(1, 1<<30).Draw(t, "seed"),
-		Early:   rapid.Bool().Draw(t, "early"),
-		Jitter:  rapid.SampledFrom([]int{0, 20, 200}).Draw(t, "jitter"),
-		Flood:   rapid.Bool().Draw(t, "flood"),
+		N:         rapid.IntRange(3, 4).Draw(t, "n"),
+		Silent:    rapid.Bool().Draw(t, "silent"),
+		Backend:   rapid.SampledFrom([]string{"bls", "bls", "rec", "rec", "ps"}).Draw(t, "backend"),
+		Signs:     rapid.IntRange(0, 2).Draw(t, "signs"),
+		Seed:      rapid.IntRange(1, 1<<30).Draw(t, "seed"),
+		Early:     rapid.Bool().Draw(t, "early"),
+		Jitter:    rapid.SampledFrom([]int{0, 20, 200}).Draw(t, "jitter"),
+		Flood:     rapid.Bool().Draw(t, "flood"),
+		SlowSetup: rapid.Bool().Draw(t, "slowsetup"),
 	}
+}
+
+// slowSetupSigner delays SetShareData; everything else is the wrapped signer's.
+type slowSetupSigner struct {
+	tss.Signer
+	inSetup *int32
+	// setupState: set-up state of the instance that OnMsg reads - plain memory without a lock of its own, exactly like
+	// ps.TPS.publicKeysOfParties (written by SetShareData, read by OnMsg). If the orchestrator lets a message reach the instance
+	// while its SetShareData is still running, the race detector reports the pair.
+	setupState *int
+	overlaps   *int32 // OnMsg calls that ran while SetShareData of the same instance had not returned yet (evidence only)
+}
+
+func (s slowSetupSigner) SetShareData(d []byte) error {
+	atomic.StoreInt32(s.inSetup, 1)
+	defer atomic.StoreInt32(s.inSetup, 0)
+	time.Sleep(20 * time.Millisecond)
+	*s.setupState++
+	return s.Signer.SetShareData(d)
+}
+
+func (s slowSetupSigner) OnMsg(b []byte, from uint16, bc bool) {
+	if *s.setupState < 0 {
+		return
+	}
+	if atomic.LoadInt32(s.inSetup) == 1 {
+		atomic.AddInt32(s.overlaps, 1)
+	}
+	s.Signer.OnMsg(b, from, bc)
 }
 
 type rtFrame struct {
@@ -161,6 +195,8 @@ type c20Info struct {
 	SignOK        int
 	EarlyInjected int
 	UnsortedViews int
+	// OnMsgDuringSetup: hand-offs to a signing instance whose SetShareData had not returned yet
+	OnMsgDuringSetup int32
 }
 
 func runC20(c c20Case) *vh.Outcome {
@@ -176,6 +212,15 @@ func runC20(c c20Case) *vh.Outcome {
 	net := newRTNet(int64(c.Seed), c.Jitter)
 	tape := &backends.Tape{}
 	kgf, sf := c11Factories(c.Backend, all, 2, tape)
+	if c.SlowSetup {
+		sf0 := sf
+		sf = func(node uint16) tss.SignerFactory {
+			f := sf0(node)
+			return func(id uint16) tss.Signer {
+				return slowSetupSigner{f(id), new(int32), new(int), &info.OnMsgDuringSetup}
+			}
+		}
+	}
 	membership := func() map[tss.UniversalID]tss.PartyID {
 		m := map[tss.UniversalID]tss.PartyID{}
 		for _, id := range all {
@@ -400,13 +445,24 @@ func runC20(c c20Case) *vh.Outcome {
 		stopCross := make(chan struct{})
 		var cwg sync.WaitGroup
 		recMu.Lock()
-		dkgFrames := append([]rtFrame(nil), recorded...)
+		var dkgFrames []rtFrame
+		firstOfClass := map[byte]string{} // one payload per broadcast class: a second, different one would only make the receivers' broadcast layer shut the sender out
+		for _, f := range recorded {
+			if len(f.data) >= 2 && f.data[0] == 0xFF && f.data[1] >= 2 {
+				if first, ok := firstOfClass[f.data[1]]; !ok {
+					firstOfClass[f.data[1]] = string(f.data)
+				} else if first != string(f.data) {
+					continue
+				}
+			}
+			dkgFrames = append(dkgFrames, f)
+		}
 		recMu.Unlock()
 		if c.Flood && len(dkgFrames) > 0 {
 			cwg.Add(1)
 			go func() {
 				defer cwg.Done()
-				for i := 0; i < 4000; i++ {
+				for i := 0; i < 400000; i++ { // until the signing sessions are over (stopCross)
 					select {
 					case <-stopCross:
 						return
@@ -466,6 +522,12 @@ func runC20(c c20Case) *vh.Outcome {
 	o.Key = fmt.Sprintf("%+v", c)
 	o.NonTrivial = info.Overlaps > 0 || info.EarlyInjected > 0
 	o.Classes = append(o.Classes, "backend="+c.Backend, fmt.Sprintf("silent=%v", c.Silent))
+	if atomic.LoadInt32(&info.OnMsgDuringSetup) > 0 {
+		o.Classes = append(o.Classes, "message-handed-to-signer-during-its-set-up")
+	}
+	if os.Getenv("VERIF_DEBUG") != "" {
+		fmt.Fprintf(os.Stderr, "C20 debug: %+v\n", *info)
+	}
 	if info.Overlaps > 0 {
 		o.Classes = append(o.Classes, "concurrent-HandleMessage-in-one-node")
 	}
